@@ -81,7 +81,9 @@ def gen_case(rng: random.Random) -> dict:
     for i in range(n):
         kind = rng.choice(("switch", "switch", "sensor", "binary", "raising"))
         devs.append({"kind": kind, "option": rng.choice(OPTIONS), "state_addr": f"1/1/{i + 1}", "write_addr": f"1/0/{i + 1}",
-                     "bus": rng.choice((0.05, 0.5, 1.9, None, None)), "initial": rng.random() < 0.7})
+                     "bus": rng.choice((0.05, 0.5, 1.9, None, None)), "initial": rng.random() < 0.7,
+                     # a second, passive state address (group_address_state=[state, passive])
+                     "passive_addr": f"1/2/{i + 1}" if rng.random() < 0.4 else None})
     ops = []
     dts = (0.0, 0.0, 0.5, 1.9, 2.0, 2.1, 10.0, 30.0, 58.0, 59.0, 60.0, 61.0, 100.0, 119.0, 120.0, 121.0, 125.0, 200.0, 1800.0)
     for _ in range(rng.randint(12, 45)):
@@ -91,7 +93,7 @@ def gen_case(rng: random.Random) -> dict:
         if k == "state":
             op["state"] = rng.choice(("CONNECTED", "CONNECTED", "CONNECTED", "DISCONNECTED", "CONNECTING"))
         elif k == "update":
-            op["via"] = rng.choice(("state", "state", "write"))
+            op["via"] = rng.choice(("state", "state", "write", "passive", "passive"))
             op["response"] = rng.random() < 0.4
         elif k == "bus":
             op["bus"] = rng.choice((0.05, 0.5, 1.9, None))
@@ -168,6 +170,9 @@ def run_one(ctx, case_seed: str) -> None:
         bus = {d["state_addr"]: d["bus"] for d in case["devs"]}
         devices = []
         for i, d in enumerate(case["devs"]):
+            d = dict(d)
+            if d.get("passive_addr"):
+                d["state_addr"] = [d["state_addr"], d["passive_addr"]]
             if d["kind"] == "switch":
                 dev = Switch(xknx, f"dev{i}", group_address=d["write_addr"], group_address_state=d["state_addr"], sync_state=d["option"])
             elif d["kind"] == "sensor":
@@ -281,6 +286,9 @@ def run_one(ctx, case_seed: str) -> None:
                     continue
                 d = case["devs"][i]
                 addr = d["write_addr"] if (op["via"] == "write" and d["kind"] == "switch") else d["state_addr"]
+                if op["via"] == "passive" and d.get("passive_addr"):
+                    addr = d["passive_addr"]
+                    ctx.count("state_telegrams_on_a_passive_state_address")
                 p = GroupValueResponse(value_for(i)) if op["response"] else GroupValueWrite(value_for(i))
                 events.append(("bus", t, addr))
                 inject_incoming(xknx, Telegram(destination_address=GroupAddress(addr), payload=p))
@@ -591,7 +599,8 @@ def run(ctx):
                 "expire_initial_read_replaced_by_update", "connection_lost_with_tracker_running", "periods_opened", "periods_closed",
                 "two_reads_in_flight", "trackers_init", "trackers_expire", "trackers_every", "trackers_none",
                 "init_tracker_read_exactly_once_in_last_period", "state_updates_processed", "histories_with_busy_outgoing_queue",
-                "tracker_cancelled_while_outgoing_queue_busy", "state_update_with_raising_device_callback")
+                "tracker_cancelled_while_outgoing_queue_busy", "state_update_with_raising_device_callback",
+                "state_telegrams_on_a_passive_state_address")
     n = ctx.scale(1000, 64000)
     for i in range(n):
         if ctx.mine(i):
